@@ -228,9 +228,7 @@ impl Keyring {
         let mut key_found = false;
 
         for line in config.lines() {
-            let mut cleaned_line = line.to_string();
-            cleaned_line.retain(|c| c != '\t');
-            cleaned_line = cleaned_line.trim().to_string();
+            let cleaned_line = line.trim().to_string();
             if cleaned_line.starts_with("[Key]") {
                 if key_found {
                     if key_name.is_none() {
